@@ -19,7 +19,7 @@ DESIGN_REF = 'DESIGN.md section 3, C18'
 RULE = ('Hypothesis generates 1..10 fit results (1..6 fits each, best chi^2 incl. 0, ties, 1e30, inf; n_data 1..5 with '
         'other flags mixed in; with/without predicted fluxes), a criterion chi= or cpd= whose threshold lies strictly '
         'between attained values, explicit or automatic output names, and the input form (file path or list of result '
-        'objects). One evaluation = one filter_output call with both outputs read back. Non-trivial = >= 2 sources and both '
+        'objects), preceded by 0..2 earlier calls with other thresholds on the same output names. One evaluation = the last filter_output call with both outputs read back. Non-trivial = >= 2 sources and both '
         'output files non-empty; distinct = distinct canonical JSON.')
 ASSUMPTIONS = [
     'an output that should hold no record may be a zero-byte / unreadable file (nothing is claimed about it)',
@@ -54,8 +54,10 @@ def cases(draw):
     if draw(st.integers(0, 9)) == 0:
         thr = 1e31
     form = draw(st.sampled_from(['file', 'file', 'list']))
+    # histories: earlier calls with other thresholds that wrote to the SAME output names (all good / all bad / a split)
+    before = draw(st.lists(st.sampled_from([1e31, -1., 0.75, 3.3]), max_size=2))
     return {'names': names, 'nfilt': nfilt, 'records': recs, 'criterion': crit, 'threshold': thr, 'input': form,
-            'auto': draw(st.booleans()) if form == 'file' else False}
+            'auto': draw(st.booleans()) if form == 'file' else False, 'earlier_thresholds': before}
 
 
 def read_or_empty(path, what):
@@ -93,8 +95,14 @@ def run_case(case, ctx):
         else:
             good, bad = os.path.join(d, 'well_fit'), os.path.join(d, 'badly_fit')
             kw = {'output_good': good, 'output_bad': bad}
-        kw[crit] = thr
         arg = inp if case['input'] == 'file' else infos
+        for t_prev in case.get('earlier_thresholds', []):
+            kw_prev = dict(kw)
+            kw_prev['chi'] = t_prev
+            with must_succeed('an earlier filter_output call on the same output names'), quiet():
+                filter_output(arg, **kw_prev)
+            labels.add('outputs_rewritten')
+        kw[crit] = thr
         with must_succeed('filter_output(%s input)' % case['input']), quiet():
             filter_output(arg, **kw)
         g, gmeta = read_or_empty(good, 'good')
